@@ -630,11 +630,29 @@ CODE_SHAPES = ["", "(en)", " (en)", "(fr)", " (ach)", "(bos)", " (schm)", "()", 
                "(EN)", " (zh-Hans)", "(x)(en)", "\n(en)", "(e\nn)", "(en)\n", " (fr", "fr)", "(fr))", " ( fr )"]
 
 
+def iana_boundary_codes() -> list:
+    """Codes at the boundaries of the two subtag tables (own reading of the files: split on newlines, strip): first /
+    last / shortest / longest entries, their neighbours, and near misses (truncations, extensions, case variants)."""
+    d = REPO / "pyxform" / "validators" / "pyxform" / "iana_subtags"
+    out = []
+    for f in ("iana_subtags_2_characters.txt", "iana_subtags_3_or_more_characters.txt"):
+        own = [x.strip() for x in (d / f).read_text(encoding="utf-8").split("\n") if x.strip()]
+        bylen = sorted(own, key=len)
+        members = own[:3] + own[-3:] + bylen[:3] + bylen[-3:]
+        out += members
+        for m in members:
+            out += [m[:-1], m[1:], m + "x", m + m[-1], m.upper(), m[:-1] + "q"]
+    return [c for c in dict.fromkeys(out) if c and "'" not in c]
+
+
 def iana_cases(ctx, n):
     from pyxform.validators.pyxform.iana_subtags.validation import get_languages_with_bad_tags
 
     rng = ctx.rng
     labels = [a + b for a in LANG_NAMES for b in CODE_SHAPES] + ["en", "fr", "ab", "(a)", "a()", "abc", "default"]
+    boundary = [f"Lang {i} ({c})" for i, c in enumerate(iana_boundary_codes())]
+    ctx.count("iana:boundary_codes", len(boundary))
+    labels += boundary
     ctx.count("iana:labels_enumerated", len(labels))
     batches = [labels[i:i + 40] for i in range(0, len(labels), 40)]
     for _ in range(n):
@@ -886,6 +904,13 @@ def directed_cases(ctx):
         for l in langs:
             row["label::" + l] = "L " + l
         workbook_case(ctx, {"survey": [row]}, "directed")
+    # table boundaries through the whole conversion: first / last entries of each subtag file and their truncations
+    codes = iana_boundary_codes()
+    for i in range(0, len(codes), 3):
+        row = {"type": "text", "name": "q"}
+        for c in codes[i:i + 3]:
+            row[f"label::Lang {c} ({c})"] = "L " + c
+        workbook_case(ctx, {"survey": [row]}, "directed_iana_boundary", must_convert="language labels with bracketed codes")
     # md route (the sheet is really present in the file)
     from pyxform.xls2xform import convert
 
